@@ -12,6 +12,7 @@ import random
 
 from mpv import arr, models, faults, syntax, cmdgen
 
+ANCHORS = ['mpilot/commands.py:Command.run', 'mpilot/parser/parser.py:Lexer.t_error', 'mpilot/parser/parser.py:Parser.p_error', 'mpilot/cli/mpilot.py:main', 'mpilot/libraries/eems/csv/io.py:EEMSRead.execute', 'mpilot/exceptions.py:UnexpectedError.__str__', 'mpilot/libraries/eems/exceptions.py:MixedArrayShapes.__str__']   # repository functions the workload must enter (reported as anchors_reached / anchors_missed)
 LEVEL = "fault_enumeration"
 RULE = ("(a) every fault site (C12 matrix + list/tuple/number given to String and Path parameters) on per-command base models and "
         "random models; (b) character-level edits (delete/insert/replace incl. NUL, BOM, quotes, backslashes, brackets), 10 kB tokens, "
